@@ -283,7 +283,7 @@ fn admitted_request() -> SessionRequest {
     SessionRequest::try_from(h).ok().unwrap()
 }
 
-// @h props=C12,C13,C15 tier=quick t=3000 mem=20 sub=typestate-session covers=any
+// @h props=C12,C13,C15 tier=thorough t=3000 mem=20 sub=typestate-session covers=any
 // @fn wtransport-proto/src/stream.rs StreamSession::{read_frame,read_frame_from_buffer,validate_frame} StreamBiRemoteH3::into_session; wtransport-proto/src/frame.rs Frame::read
 // @bound established session stream; optionally one unknown non-GREASE frame (1-byte type, length 0..=2, arbitrary payload) followed by DATA / HEADERS / SETTINGS / WT signal (valid id) / GREASE with one payload byte, or any proper prefix of it
 // @oracle role table (RFC 9114 §7.2, WT draft): DATA/HEADERS/GREASE delivered with exact payload; SETTINGS and WT signal => H3_FRAME_UNEXPECTED; the unknown frame is skipped whole and changes nothing (C13); incomplete follower => need more data; buffered variant identical, offset unchanged on None/Err and advanced by the consumed bytes on Some (C15)
